@@ -17,7 +17,9 @@ const LEVELS: [log::Level; 5] = [log::Level::Error, log::Level::Warn, log::Level
 pub fn child(args: &[String]) {
     let target = if args[0] == "stderr" { log4rs::append::console::Target::Stderr } else { log4rs::append::console::Target::Stdout };
     // two highlight groups whose content exactly fills / overflows their maximum width: the reset still follows
-    let pattern = "<{h({l}):.3}{h({t}):2.2}|{m}>{n}";
+    let nonl = args.get(3).map(|s| s == "nonl").unwrap_or(false);
+    let pattern = if nonl { "<{h({l}):.3}{h({t}):2.2}|{m}>" } else { "<{h({l}):.3}{h({t}):2.2}|{m}>{n}" };
+    let fd = if args[0] == "stderr" { 2 } else { 1 };
     let a: Box<dyn Append> = if args.get(2).map(|s| s == "config").unwrap_or(false) {
         // from a configuration value; keys whose documented default is wanted are left out
         let mut doc = json!({"encoder": {"pattern": pattern}});
@@ -42,6 +44,10 @@ pub fn child(args: &[String]) {
         let r = a.append(&log::Record::builder().level(l).target("tg").args(format_args!("payload")).build());
         if r.is_err() {
             std::process::exit(3);
+        }
+        // a marker written to the descriptor itself: whatever append wrote must be on the stream before it
+        unsafe {
+            libc::write(fd, b"@".as_ptr() as *const libc::c_void, 1);
         }
     }
 }
@@ -92,8 +98,8 @@ fn drain(e: End) -> Vec<u8> {
     out
 }
 
-fn plain_line(l: log::Level) -> String {
-    format!("<{}tg|payload>\n", &l.to_string()[..3])
+fn plain_line(l: log::Level, nonl: bool) -> String {
+    format!("<{}tg|payload>{}", &l.to_string()[..3], if nonl { "" } else { "\n" })
 }
 
 /// strips well-formed SGR sequences; returns (text, sequences) or Err on a malformed escape
@@ -148,6 +154,9 @@ fn check_row(case: &Value, exe: &str, idx: usize) -> Option<Value> {
     let (err_end, err_fd) = make(r["err_tty"].as_bool().unwrap());
     let mut cmd = Command::new(exe);
     cmd.arg("console-child").arg(r["target"].as_str().unwrap()).arg(r["tty_only"].to_string()).arg(if idx % 2 == 1 { "config" } else { "builder" });
+    let nonl = (idx / 2) % 2 == 1;
+    // (idx is row * 4 + variant: every row runs with both constructions and with and without a final newline)
+    cmd.arg(if nonl { "nonl" } else { "nl" });
     for (var, key) in [("NO_COLOR", "no_color"), ("CLICOLOR", "clicolor"), ("CLICOLOR_FORCE", "force")] {
         match r[key].as_str().unwrap() {
             "unset" => {
@@ -177,6 +186,21 @@ fn check_row(case: &Value, exe: &str, idx: usize) -> Option<Value> {
     if !other.is_empty() {
         return Some(json!({"what": "output on the stream that is not the target", "text": other}));
     }
+    // record, marker, record, marker, ...: each append's output is on the stream when append returns
+    let segments: Vec<&str> = on_target.split('@').collect();
+    if segments.len() != LEVELS.len() + 1 || !segments[LEVELS.len()].is_empty() {
+        return Some(json!({"what": "output appears after the marker that follows its append", "stream": on_target}));
+    }
+    if case["writes"].as_bool().unwrap() {
+        for (seg, l) in segments.iter().zip(LEVELS) {
+            let text = strip_sgr(seg).map(|x| x.0).unwrap_or_else(|_| seg.to_string());
+            if text != plain_line(l, nonl) {
+                return Some(json!({"what": "a record is not on the stream when its append returns", "level": l.to_string(),
+                                   "between_markers": seg, "stream": on_target}));
+            }
+        }
+    }
+    let on_target: String = segments.concat();
     let writes = case["writes"].as_bool().unwrap();
     let coloured = case["coloured"].as_bool().unwrap();
     if !writes {
@@ -185,7 +209,7 @@ fn check_row(case: &Value, exe: &str, idx: usize) -> Option<Value> {
         }
         return None;
     }
-    let want_plain: String = LEVELS.iter().map(|l| plain_line(*l)).collect();
+    let want_plain: String = LEVELS.iter().map(|l| plain_line(*l, nonl)).collect();
     if on_target.is_empty() {
         return Some(json!({"what": "appender is silent although it must write", "expected": want_plain}));
     }
@@ -205,7 +229,7 @@ fn check_row(case: &Value, exe: &str, idx: usize) -> Option<Value> {
             if seqs.len() != 16 {
                 return Some(json!({"what": "colour enabled but the highlight groups are not styled", "sequences": seqs}));
             }
-            for line in on_target.lines().filter(|l| l.contains('\u{1b}')) {
+            for line in segments.iter().filter(|l| l.contains('\u{1b}')) {
                 // style, reset, style, reset - each group is closed before the next text
                 let per_line = strip_sgr(line).map(|x| x.1).unwrap_or_default();
                 let shape_ok = per_line.len() == 4 && per_line[1] == "\u{1b}[0m" && per_line[3] == "\u{1b}[0m" && per_line[0] != "\u{1b}[0m" && per_line[2] != "\u{1b}[0m";
@@ -275,7 +299,7 @@ pub fn main(args: &[String]) {
     let rows = read_ndjson(&args[0]);
     let exe = std::env::current_exe().unwrap().to_string_lossy().to_string();
     let res = par_map(&rows, 8, |i, c| {
-        let m = if c["kind"] == "row" { check_row(c, &exe, i) } else { check_style(c) };
+        let m = if c["kind"] == "row" { (0..4).find_map(|v| check_row(c, &exe, i * 4 + v)) } else { check_style(c) };
         m.into_iter().map(|m| json!({"case": i, "input": c, "mismatch": m})).collect()
     });
     write_ndjson(&args[1], &res);
